@@ -21,6 +21,9 @@ pub struct Case {
     /// false: BatchLimitType::BatchSize, true: BatchLimitType::PaddedItemSize
     pub padded: bool,
     pub seed: u64,
+    /// seed = None (OS entropy): everything but the determinism comparison is judged
+    #[serde(default)]
+    pub no_seed: bool,
     /// direct call of find_subsequences_of_max_size_k(values, k, size function)
     pub sub_values: Vec<usize>,
     pub sub_k: usize,
@@ -100,7 +103,7 @@ fn run(c: &Case) -> Run {
         } else {
             BatchLimitType::BatchSize
         },
-        Some(c.seed),
+        if c.no_seed { None } else { Some(c.seed) },
     );
     let mut batches = vec![];
     let mut ended = false;
@@ -238,7 +241,7 @@ impl Prop for C06 {
 
     fn assumptions() -> Vec<&'static str> {
         vec![
-            "seed = None (OS entropy) is not run: the result would not be replayable; determinism is judged for Some(seed) only",
+            "seed = None (OS entropy) is run in 2.5% of the cases: partition, limits and termination are judged as always, determinism only when shuffle is off (a violation found there may not replay)",
             "item sizes stay below 2^18 so that count x size cannot overflow usize; arithmetic overflow on absurd sizes is outside the workload",
             "the upstream is a fused iterator (vec::IntoIter), as in the loader",
             "an endless stream of batches is cut off after n+2 batches (then an empty batch or a duplicate is already proven); a loop inside one next() call is detected by the supervisor's CPU budget",
@@ -302,6 +305,7 @@ impl Prop for C06 {
             batch_limit,
             padded,
             seed,
+            no_seed: rng.random_range(0..40) == 0,
             sub_values,
             sub_k,
             sub_fn,
@@ -397,9 +401,10 @@ impl Prop for C06 {
             }
         }
         // (5) deterministic function of the seed
+        obs.tag_if(c.no_seed, "seed-none");
         if let Some(r2) = guarded(obs, &format!("batched/{mode}"), || run(c)) {
             obs.check(
-                ids(&r2.batches) == ids(b) && r2.ended == r.ended,
+                (c.no_seed && c.shuffle) || (ids(&r2.batches) == ids(b) && r2.ended == r.ended),
                 &format!("batched/{mode}/not-deterministic"),
                 || format!("second run with seed {} gave {:?}; first: {}", c.seed, ids(&r2.batches), describe()),
             );
